@@ -171,7 +171,13 @@ impl Exp {
                     },
                     BinOp::Mul => match (lhs, rhs) {
                         (Exp::Number(lhs), Exp::Number(rhs)) => Exp::Number(lhs * rhs),
-                        (Exp::Number(0.0), _) | (_, Exp::Number(0.0)) => Exp::Number(0.0),
+                        // a zero factor must not erase a division the linearizer
+                        // still has to diagnose, such as 0 * (x / 0)
+                        (Exp::Number(0.0), other) | (other, Exp::Number(0.0))
+                            if !other.has_pending_division() =>
+                        {
+                            Exp::Number(0.0)
+                        }
                         (Exp::Number(1.0), rhs) => rhs,
                         (lhs, Exp::Number(1.0)) => lhs,
                         (lhs, rhs) => Exp::BinOp(BinOp::Mul, lhs.to_box(), rhs.to_box()),
@@ -397,6 +403,29 @@ impl Exp {
         }
     }
 
+    /// Whether the expression still contains a division, which after
+    /// simplification is either by a variable expression, by zero, or a
+    /// division the linearizer has to scale by. Rewrites that would drop such a
+    /// sub-expression (zero factors, absorbing logic constants) are skipped so
+    /// that the division is still diagnosed.
+    fn has_pending_division(&self) -> bool {
+        match self {
+            Exp::Number(_) | Exp::Variable(_) => false,
+            Exp::Abs(exp) | Exp::Not(exp) | Exp::UnOp(_, exp) => exp.has_pending_division(),
+            Exp::Min(exps) | Exp::Max(exps) | Exp::And(exps) | Exp::Or(exps) => {
+                exps.iter().any(|exp| exp.has_pending_division())
+            }
+            Exp::Xor(lhs, rhs) | Exp::Implies(lhs, rhs) | Exp::Iff(lhs, rhs) => {
+                lhs.has_pending_division() || rhs.has_pending_division()
+            }
+            Exp::BinOp(op, lhs, rhs) => {
+                (matches!(op, BinOp::Div) && !matches!(**rhs, Exp::Number(value) if value != 0.0))
+                    || lhs.has_pending_division()
+                    || rhs.has_pending_division()
+            }
+        }
+    }
+
     /// Checks if the expression is a leaf node (number or variable).
     ///
     /// # Returns
@@ -480,6 +509,15 @@ fn simplify_logic_nary(exps: &[Exp], is_and: bool) -> Exp {
             (false, Exp::Or(inner)) => flattened.extend(inner),
             (_, exp) => flattened.push(exp),
         }
+    }
+    // an absorbing constant must not erase a division that is still to be
+    // diagnosed, such as 1 or (x / 0): keep the operands as they are
+    if flattened.iter().any(|exp| exp.has_pending_division()) {
+        return if is_and {
+            Exp::And(flattened)
+        } else {
+            Exp::Or(flattened)
+        };
     }
     let mut result: Vec<Exp> = Vec::new();
     for exp in flattened {
